@@ -1,5 +1,7 @@
 import Driver.Conv
 import Driver.Kv
+import Driver.Timer
+import Driver.Http
 import Driver.Rt
 import Driver.Mw
 
@@ -15,9 +17,13 @@ def dispatch : List String → Option (String → String)
   | ["oracle", "conv"] => some Driver.Conv.oracle
   | ["model", "kv"] => some Driver.Kv.model
   | ["oracle", "kv"] => some Driver.Kv.oracle
+  | ["model", "timer"] => some Driver.Timer.model
+  | ["oracle", "timer"] => some Driver.Timer.oracle
   | ["model", "rt"] => some Driver.Rt.model
   | ["model", "mw"] => some Driver.Mw.model
   | ["oracle", "mw"] => some Driver.Mw.oracle
+  | ["model", "http"] => some Driver.Http.model
+  | ["oracle", "http"] => some Driver.Http.oracle
   | _ => none
 
 def main (args : List String) : IO UInt32 := do
